@@ -200,8 +200,14 @@ void mzd_row_clear_offset(mzd_t *M, rci_t row, rci_t coloffset) {
   } else {
     temp = 0;
   }
-  truerow[startblock] = temp;
-  for (wi_t i = startblock + 1; i < M->width; ++i) { truerow[i] = 0; }
+  if (startblock == M->width - 1) {
+    /* only clear up to the last column: a window may share this word with its parent */
+    truerow[startblock] = temp | (truerow[startblock] & ~M->high_bitmask);
+  } else {
+    truerow[startblock] = temp;
+    for (wi_t i = startblock + 1; i < M->width - 1; ++i) { truerow[i] = 0; }
+    truerow[M->width - 1] &= ~M->high_bitmask;
+  }
 
   __M4RI_DD_ROW(M, row);
 }
